@@ -4,7 +4,7 @@ from ..gen import KEY_POOL, rng_for
 from . import c03
 
 ENGINES = ["memkv", "badger", "tikv"]
-EXTRA_PROP_MODULES = [("KB.Props.C02Store", "KB.C02Store"), ("KB.Props.OrderC15", "KB.OrderC15")]
+EXTRA_PROP_MODULES = [("KB.Props.C02Store", "KB.C02Store"), ("KB.Props.C02Lag", "KB.C02Lag"), ("KB.Props.OrderC15", "KB.OrderC15")]
 
 
 def lag_case(seed, i, engine):
